@@ -68,7 +68,7 @@ class Oracle:
             self.cnt, self.flt, self.reg, self.route, self.ttl = {}, {}, {}, {}, {}
             return None
         if name == "c.own":
-            p, b = reply.split("pick=")[1].split("/")
+            p, b = reply.split("pick=")[1].split()[0].split("/")
             self.route[a[1]] = int(p.split(",")[-1])
             return None
         if name == "c.put":
